@@ -300,6 +300,11 @@ func (g *gen) cond() Cond {
 		case 0: // missing field on the left
 			return Cond{L: "nope.x", Op: "==", R: "1"}
 		case 1:
+			if g.cfg.Helpers && g.r.Rng.Intn(4) == 0 {
+				// a helper called with NO arguments (the built-in ones then say false): it must not see the arguments
+				// an earlier helper or modifier call left behind
+				return Cond{Hlp: pick(g.r, []string{"lenEq0", "lenGt0", "lenGtq0"})}
+			}
 			if g.cfg.Helpers && (p.K == kStr || p.K == kBytes) {
 				return Cond{Hlp: pick(g.r, []string{"lenEq0", "lenGt0", "lenGtq0"}), HlpArgs: []string{p.Path}}
 			}
